@@ -14,7 +14,7 @@
 // Suggested fix: add `<< label` to myID in GennaroJareckiKrawczykRabinDKG::Reconstruct (as Generate already does).
 //
 // Build: g++ -O1 -g -w -pthread -fno-access-control -DHAVE_CONFIG_H -I/repo -I/repo/src -I/verif/mc \
-//     /verif/findings/c16_nts_reconstruct_channel_reuse.cc /verif/build/plain/mc/env_shim.o /verif/build/plain/libtmcg.a \
+//     /verif/findings/obs_c16_nts_reconstruct_channel_reuse.cc /verif/build/plain/mc/env_shim.o /verif/build/plain/libtmcg.a \
 //     -lgcrypt -lgmp -lgpg-error -ldl -o /tmp/c16_reuse && /tmp/c16_reuse
 // Expected on the defective tree: P0..P2 "sign=0"; exit status 1.
 #include "sched.hh"
